@@ -444,13 +444,18 @@ theorem docs_spec (strip : Option (Bytes → Bytes)) (src : Bytes) (adj : Option
     docsOfP strip src adj docs = docsSpec strip src adj docs := docsOfP_eq_spec strip src adj docs
 
 /-- **docs_select_spec.**  What `selectSpec` (hence the `docs_start_index` loop) selects: a suffix of the
-doc captures that is a chain (every node ends on the row just above the next one's first row, or later;
+doc captures that is a chain (every node — single- or multi-row — ENDS on the row just above the next one's FIRST row, or later;
 the last one just above the selected node) and is the LONGEST such suffix. -/
 theorem docs_select_spec (docs : List Cap) (row : Nat) :
     selectAdjacent docs row = selectSpec docs row ∧
     (∃ pre, docs = pre ++ selectSpec docs row) ∧ chainOK (selectSpec docs row) row = true ∧
     ∀ pre s, docs = pre ++ s → chainOK s row = true → s.length ≤ (selectSpec docs row).length :=
   ⟨selectAdjacent_eq_spec docs row, selectSpec_props docs row⟩
+
+/-- Multi-row doc nodes: a comment on row 0, a block comment on rows 1–2, the node on row 3 — adjacency compares
+the END row of the earlier node with the START row of the later one, so both are selected (a walk that
+compared with the END row of the block comment would drop the first: seeded C18-r4). -/
+example : (selectSpec [⟨5, 0, 5, ⟨0, 0⟩, ⟨0, 5⟩, false⟩, ⟨5, 6, 20, ⟨1, 0⟩, ⟨2, 8⟩, false⟩] 3).map (·.sb) = [0, 6] := by decide
 
 /-- Non-vacuity: comments on rows 0, 2, 3 above a node on row 4 — the row-0 comment is cut off by the gap. -/
 example : (selectSpec [⟨5, 0, 6, ⟨0, 0⟩, ⟨0, 6⟩, false⟩, ⟨5, 8, 14, ⟨2, 0⟩, ⟨2, 6⟩, false⟩,
